@@ -9,8 +9,8 @@ import numpy as np
 
 ID = "C17"
 LEVEL = "model_checking"
-SCENARIOS = ["pm_pend", "rb_pend", "cyl", "driven_pend", "rigid_pair", "double_pend", "slider_crank"]
-SOLVERS = ["Rattle", "BackwardEuler", "Moreau", "DSV_LU", "DSV_LU_varM", "DSV_default", "ScipyDAE", "ScipyIVP"]
+SCENARIOS = ["pm_pend", "rb_pend", "cyl", "driven_pend", "driven_pend_rest", "rigid_pair", "double_pend", "slider_crank"]
+SOLVERS = ["Rattle", "BackwardEuler", "Moreau", "DSV_LU", "DSV_LU_varM", "DSV_default", "DSV_LU_plain", "ScipyDAE", "ScipyIVP"]
 DTS = {"quick": [1e-3, 1e-2, 1e-1], "thorough": [1e-3, 3e-3, 1e-2, 3e-2, 1e-1]}
 NSTEPS = {"quick": 20, "thorough": 100}
 RULE = (
@@ -49,7 +49,7 @@ IVP_TOL = (1e-9, 1e-11)
 K_DAE = 100.0
 TOL_IVP = 1e-9  # relative to max(1, force scale)
 
-POSITION_LEVEL = {"Rattle", "BackwardEuler", "DSV_LU", "DSV_LU_varM", "DSV_default"}
+POSITION_LEVEL = {"Rattle", "BackwardEuler", "DSV_LU", "DSV_LU_varM", "DSV_default", "DSV_LU_plain"}
 FIXED_STEP = POSITION_LEVEL | {"Moreau"}
 
 
